@@ -140,6 +140,7 @@ type M struct {
 	insts          []*Inst
 	ctr            uint32
 	base           int          // number of base-chain headers (real-depth regime)
+	unmarked       []model.Hash // hashes unmarked in this history (re-offered later, also after a Load)
 	cfgInvalid     []model.Hash // Config.InvalidHeaderHashes of every instance of this history
 	bulks          int
 	actionsEnabled map[string]int // the weights of the running leg (operations it includes)
